@@ -18,6 +18,8 @@ PROPERTY = Property(
     contracts=PROVED,
     standins=[StandIn("whole pipeline == whole-run computation over chunkings / processors / settings / stored subsets (real Context)",
                       B.pipeline, B.pipeline.harness, budget={"quick": 200, "thorough": 3000}),
+              StandIn("process pool: a stateful non-parallel plugin is not inlined into the multiprocessing source (real Context)",
+                      B.multiprocess, B.multiprocess.harness, budget={"quick": 8, "thorough": 8}),
               StandIn("Plugin.iter alignment / exactly-once over independent chunkings (real code, shared with C08)", B8.plugin_iter,
                       B8.plugin_iter.harness, budget={"quick": 100, "thorough": 700})],
     trusted=["pyvc VC generator and value model", "z3 5.1.0 / cvc5 1.4.0"],
